@@ -6,8 +6,8 @@ SPEC = {
     "design_ref": "DESIGN.md section 7, C01",
     "suites": [
         Suite(name="report", harness="vh_report", runner="report",
-              model_deps=["theories/Model/Report.vo"],
-              quick_n=6000, thorough_n=60000,
+              model_deps=["theories/Model/Report.vo", "theories/Model/ReportRuns.vo"],
+              quick_n=5000, thorough_n=50000,
               rule="cases: real config.Expand on structured/damaged bucket syntax (20%); real config.NewConfig "
                    "lookups HasProgram/HasVersion/HasCounter/HasCounterPrefix/HasStack/Rate/HasGOOS/HasGOARCH/"
                    "HasGoVersion on 6-11 probes per generated configuration (20%); real uploader findWork+reports "
@@ -19,7 +19,13 @@ SPEC = {
                    "rates, random) with rates placed at X, next above, next below, 0, 1, denormals; gate closed by "
                    "mode local / age / as-of in 3/14 (60%, of which 1/6 also run the HTTP phase against a local "
                    "server with a leftover report and compare POSTed bytes); two directed cases replay known "
-                   "findings 13 and 14. distinct = distinct case lines; every case compares implementation "
+                   "findings 13 and 14; a quarter of the weeks have 2-3 DIFFERENT programs whose approved builds "
+                   "record counters and stacks of the SAME names, approved / rated / omitted differently per program, "
+                   "files in random order; 10% of the cases (kind seq) are HISTORIES: this one process runs a new "
+                   "uploader two or three times on the same directory while the count files change in between "
+                   "(run while the files are active - programs count on - files expire - run; or run consuming a "
+                   "week - same file names written for the next week - run), each run compared with the model and "
+                   "judged by report_check on the files as the real parser reads them at that run. distinct = distinct case lines; every case compares implementation "
                    "observables (expansion, table answers, both JSON reports parsed, count files left) with the "
                    "model and evaluates report_check on the implementation's upload report; none is trivial"),
     ],
@@ -30,7 +36,10 @@ SPEC = {
                   "createReport/findProgReport, for all configurations, all lists of parsed counter files and all X: "
                   "soundness (builds, counter names via expansion, stack titles, rates), value = int64-wrapped sum "
                   "over exactly the files of the build (true sum below 2^63), completeness, report header, no report "
-                  "iff no counters; expansion specified for the documented syntax and in general; the shared rate "
+                  "iff no counters; programs of a report filtered independently of each other and of their order; "
+                  "histories: with the parse cache explicit, every run of a process reports the expired files of "
+                  "the directory as it is at that run (cache transparent when consistent, empty at each Run; a "
+                  "stale cache is exhibited to differ); expansion specified for the documented syntax and in general; the shared rate "
                   "table characterised (one of the configured rates; THE rate when unambiguous); the executable "
                   "oracle used on the implementation's reports is proved sound (acceptance implies the property's "
                   "clauses in Prop form with true sums) and to accept the model's reports outside the two known "
@@ -51,9 +60,10 @@ SPEC = {
         "encoding/json round-trips the report (names are valid UTF-8); the reports are compared as parsed structures",
         "counter.Parse yields the metadata and Count map the harness sends (C06's concern); the model starts from parsed files",
         "the gate (mode on, week not too old, as-of before the data) is an input boolean here; its computation is property C02",
+        "histories: each upload.Run builds a new uploader (empty parse cache) and the directory does not change DURING a run; grouping of expired files by week and LastWeek are C07/C09 (one week expires per run in the suite)",
     ],
     "trusted_base": [],
-    "own_objects": ["theories/Props/C01.vo", "theories/Proofs/ReportOracleSound.vo", "theories/Proofs/ReportOracle.vo", "theories/Proofs/ReportFacts.vo",
+    "own_objects": ["theories/Props/C01.vo", "theories/Proofs/ReportRunsFacts.vo", "theories/Proofs/ReportPrograms.vo", "theories/Model/ReportRuns.vo", "theories/Proofs/ReportOracleSound.vo", "theories/Proofs/ReportOracle.vo", "theories/Proofs/ReportFacts.vo",
                     "theories/Proofs/AggregateFacts.vo", "theories/Proofs/ConfigFacts.vo", "theories/Model/Report.vo",
                     "theories/Model/ApprovalSpec.vo", "theories/Model/Config.vo", "theories/Lib/Str.vo",
                     "theories/Lib/Assoc.vo"],
